@@ -529,6 +529,19 @@ def gen_retime_bound(entry, via, factor, idx):
             'retime_bound': {'entry': entry, 'factor': factor, 'delta': 1.0}}
 
 
+def gen_retime_while_other_busy(entry, factor, idx):
+    """a tempo / beats change issued by a NON-clock thread that does not hold the main lock (as the main thread of a script
+    does), while ANOTHER clock (SystemClock) is mid-way through a slow plain-function task: the caller's logical 'now' must
+    be the physical present (it waits for the running task), not the running task's older scheduled time"""
+    inner = {'tempo': ['tempo', factor, 1], 'etempo': ['etempo', factor, 1], 'beats': ['beats_add', 1, 4]}[entry]
+    return {'name': 'tempo-retime-%s-x%s-while-sys-busy' % (entry, factor), 'clock': 'tempo', 'index': idx, 'tempo': [1, 1],
+            'tasks': {'1': {'results': [['none']]}, '2': {'results': [['none']], 'nested': [[['slow', 300]]]}},
+            'threads': [[['sleep', 150], ['sched', 1, 1, 1], ['sleep', 250], ['xsched', 2, 0, 1], ['sleep', 150],
+                         ['nolock', inner]]],
+            'final': 'clear', 'wait_counts': {'1': 1}, 'before_final': 5.0, 'after_final': 0.02,
+            'retime_bound': {'entry': entry, 'factor': factor, 'delta': 1.0}}
+
+
 def gen_cancel_via(kind, via, idx):
     """clear() issued from a task of another clock: nothing that was pending may run after it returned"""
     return {'name': '%s-clear-from-%s' % (kind, via), 'clock': kind, 'index': idx, 'tempo': [2, 1],
@@ -716,6 +729,9 @@ def program(ctx, rng):
     for entry, via, factor in (combos[:5] if ctx.quick else combos):
         idx += 1
         p1.append(gen_retime_bound(entry, via, factor, idx))
+    for entry, factor in ((('tempo', 4), ('beats', 1)) if ctx.quick else (('tempo', 4), ('beats', 1), ('etempo', 4), ('tempo', 2))):
+        idx += 1
+        p1.append(gen_retime_while_other_busy(entry, factor, idx))
     for kind in ('sys', 'tempo', 'app'):
         idx += 1
         p1.append(gen_exceptions(kind, idx))
@@ -1131,6 +1147,9 @@ def search(ctx, failures):
     for entry, via, factor in (('etempo', 'thread', 4), ('tempo', 'thread', 4), ('beats', 'thread', 1), ('etempo', 'sys', 2)):
         idx += 1
         scs.append(gen_retime_bound(entry, via, factor, idx))
+    for entry, factor in (('tempo', 4), ('beats', 1)):
+        idx += 1
+        scs.append(gen_retime_while_other_busy(entry, factor, idx))
     found, seen = [], set()
     for f in failures:
         sc = f.replay.get('scenario') if isinstance(f.replay, dict) else None
